@@ -116,6 +116,10 @@ void h_insert(void) { struct XST * s, * ins; size_t pos = VF_IN_SIZE(pos); VF_IN
 void h_insert_ch(void) { struct XST * s; size_t pos = VF_IN_SIZE(pos), len = VF_IN_SIZE(len); VF_IN_SIZE(k); S_WIT_IN(); XSN(insert_ch)(s, pos, len, (int)nondet_int()); VF_END(); }
 void h_resize(void) { struct XST * s; size_t n = VF_IN_SIZE(n); VF_IN_SIZE(k); S_WIT_IN(); XSN(resize)(s, n); VF_END(); }
 void h_substr(void) { struct XST * s, * sub; size_t pos = VF_IN_SIZE(pos), len = VF_IN_SIZE(len); S_WIT_IN(); XSN(substr)(s, pos, len, sub); VF_END(); }
+#ifdef VF_G_reserve
+void h_reserve(void) { struct XST * s; size_t n = VF_IN_SIZE(n); S_WIT_IN(); XSN(reserve)(s, n); VF_END(); }
+void h_sclear(void) { struct XST * s; S_WIT_IN(); XSN(clear)(s); VF_END(); }
+#endif
 #ifdef VF_G_sswap
 void h_sswap(void) { struct XST * a, * b; XSN(swap)(a, b); VF_END(); }
 #endif
